@@ -23,4 +23,3 @@ CONSTANTS
   Cfgs = {"asw", "kindless", "all", "rfilter", "bareident", "insnchk"}
   Emit = TRUE
   TwoPhase = TRUE
-CONSTRAINT EmitHist
